@@ -1,12 +1,16 @@
 package props
 
 import (
+	"fmt"
 	"go/token"
 	"go/types"
+	"sort"
+	"strings"
 
 	"golang.org/x/tools/go/ssa"
 
 	"gpv/internal/core"
+	"gpv/internal/guard"
 )
 
 // builderParam returns the PacketBuilder parameter of fn (or nil).
@@ -147,8 +151,88 @@ func checkC01Rest(c *core.Ctx) {
 	})
 	c.Counts["decode_error_call_sites"] = n13
 
+	r16 := c.Rule("R1.6", "D", "progress: a decoder that hands data[n:] to the next decoder has n >= 1 proven (or at least not refuted)")
+	nPA := 0
+	var paFns []*ssa.Function
+	for fn := range roots.DecReach {
+		if fn.Pkg != nil && len(fn.Blocks) > 0 && !strings.HasSuffix(p.Pos(fn.Pos()), "_test.go") {
+			paFns = append(paFns, fn)
+		}
+	}
+	sort.Slice(paFns, func(i, j int) bool { return core.FnKey(paFns[i]) < core.FnKey(paFns[j]) })
+	for _, fn := range paFns {
+		for _, prm := range fn.Params {
+			if !core.IsByteSlice(prm.Type()) {
+				continue
+			}
+			seen := 0
+			for _, pa := range guard.PayloadAdvances(fn, prm) {
+				nPA++
+				seen++
+				key := core.FnKey(fn) + "/payload-advance"
+				if seen > 1 {
+					key += "#" + string(rune('0'+seen))
+				}
+				switch {
+				case pa.LB >= 1:
+					r16.OK(key, p.InstrPos(pa.At), "payload starts at an offset >= 1")
+				case pa.Taint && pa.LB <= 0 && pa.LB > -1<<30 && !pa.AltArith && !pa.Loop:
+					why := "no guard establishes n >= 1"
+					if pa.LBNoWrap >= 1 {
+						why = "n is computed in a narrow unsigned type and wraps to 0 for large field values, and the dominating guards test the wrapped value itself"
+					}
+					r16.Violate(key, p.InstrPos(pa.At), "the bytes handed to the next decoder start at data[n:] with n taken from the packet and possibly 0 ("+why+"): the same bytes are decoded again and again — eager decoding recurses until the stack overflows (not recoverable), lazy decoding never finishes", nil)
+				default:
+					r16.Undecided(key, p.InstrPos(pa.At), "n >= 1 not proven")
+				}
+			}
+		}
+	}
+	c.Counts["payload_advance_sites"] = nPA
+
 	r15 := c.Rule("R1.5", "D", "renderers are total on what decoders publish: no unguarded dereference of a pointer field decoders may leave nil")
-	nilDerefScan(c, r15)
+	unset := nilDerefScan(c, r15)
+
+	r17 := c.Rule("R1.7", "D", "renderers are total on what decoders publish: in read-only API code, a constant index / slice bound / binary.UintN on a byte-slice field is dominated by a length guard on that same slice")
+	nR := 0
+	for _, fn := range core.SortedFns(roots.AccReach) {
+		if roots.DecReach[fn] || strings.HasSuffix(p.Pos(fn.Pos()), "_test.go") {
+			continue
+		}
+		perKey := map[string]int{}
+		for _, s := range guard.Analyze(fn, nil) {
+			if !core.IsByteSlice(s.Slice.Type()) {
+				continue
+			}
+			// the slice must come from memory (a field), not from a parameter or a local make
+			if s.Class != "SAFE" && s.Class != "CAND-load" {
+				continue
+			}
+			if s.Class == "SAFE" && !guard.ViaLoad(s.Slice) {
+				continue
+			}
+			nR++
+			perKey[s.What]++
+			key := core.FnKey(fn) + "/index" + s.What
+			if perKey[s.What] > 1 {
+				key += "#" + string(rune('0'+perKey[s.What]))
+			}
+			fname := ""
+			if ld, ok := s.Root.(*ssa.UnOp); ok && ld.Op == token.MUL {
+				if fa, ok := ld.X.(*ssa.FieldAddr); ok {
+					fname = fa.X.Type().Underlying().(*types.Pointer).Elem().String() + "." + core.FieldOfAddr(fa).Name()
+				}
+			}
+			if s.Class == "SAFE" {
+				r17.OK(key, p.InstrPos(s.Ins), "length guard dominates")
+			} else if !unset[fname] {
+				r17.Undecided(key, p.InstrPos(s.Ins), fmt.Sprintf("%s needs %d bytes of %s, %d established here; whether decoders always publish enough is not decided (no decode-side creation leaves the field unset)", s.What, s.Need, fname, s.Have))
+			} else {
+				r17.Violate(key, p.InstrPos(s.Ins), fmt.Sprintf("%s needs %d bytes of a slice loaded from a field but only %d are established by dominating guards on that slice: and decode code creates values of that type without setting the field ("+fname+"): a half-decoded value published before an error return makes this read-only call panic outside any recovery", s.What, s.Need, s.Have), nil)
+			}
+		}
+	}
+	c.Counts["renderer_index_sites"] = nR
 }
 
 // decodeErrorDiscipline: R1.3 over a set of functions; callee filter decides
@@ -210,7 +294,7 @@ func neverFails(f *ssa.Function) bool {
 // from a struct field is dereferenced with no dominating nil test of that
 // field, while decode code creates values of that struct type without setting
 // the field (so nil is a state decoders can publish).
-func nilDerefScan(c *core.Ctx, r *core.Rule) {
+func nilDerefScan(c *core.Ctx, r *core.Rule) map[string]bool {
 	p := c.P
 	roots := p.Roots()
 	// fields that some decode-reachable composite creation leaves unset: type -> field index -> true
@@ -247,7 +331,8 @@ func nilDerefScan(c *core.Ctx, r *core.Rule) {
 			}
 			tn := al.Type().Underlying().(*types.Pointer).Elem().String()
 			for i := 0; i < st.NumFields(); i++ {
-				if _, isPtr := st.Field(i).Type().Underlying().(*types.Pointer); isPtr && !set[i] {
+				_, isPtr := st.Field(i).Type().Underlying().(*types.Pointer)
+				if (isPtr || core.IsByteSlice(st.Field(i).Type())) && !set[i] {
 					unset[tn+"."+st.Field(i).Name()] = true
 				}
 			}
@@ -318,4 +403,5 @@ func nilDerefScan(c *core.Ctx, r *core.Rule) {
 		})
 	}
 	c.Counts["pointer_field_derefs_in_accessors"] = n
+	return unset
 }
